@@ -118,7 +118,9 @@ func init() {
 				return true
 			})
 	}
-	for _, m := range [][2]float64{{5, 7}, {-1, 1}} {
+	// zero distances matter: a writer that omits a zero attribute and a reader that defaults an absent one
+	// each look fine alone (seed C12-d2)
+	for _, m := range [][2]float64{{5, 7}, {0, 0}, {0, 7}, {-1, 1}} {
 		m := m
 		add(fmt.Sprintf("SetHeaderFooterDistance(%g,%g)", m[0], m[1]), func(d *document.Document) error { return d.SetHeaderFooterDistance(m[0], m[1]) },
 			func(s *c12S) bool {
@@ -129,7 +131,7 @@ func init() {
 				return true
 			})
 	}
-	for _, g := range []float64{3, -1} {
+	for _, g := range []float64{3, 0, -1} {
 		g := g
 		add(fmt.Sprintf("SetGutterWidth(%g)", g), func(d *document.Document) error { return d.SetGutterWidth(g) },
 			func(s *c12S) bool {
@@ -167,6 +169,16 @@ func init() {
 	add("SetPageSettings(full)", func(d *document.Document) error { c := *full; return d.SetPageSettings(&c) },
 		func(s *c12S) bool {
 			*s = c12S{CW: 150, CH: 250, Land: true, MT: 1, MR: 2, MB: 3, ML: 4, Hdr: 5, Ftr: 6, Gut: 7, Grid: c12Grid{"snapToChars", 400, 9}}
+			return true
+		})
+	add("SetPageSettings(zeros)", func(d *document.Document) error {
+		c := *full
+		c.MarginTop, c.MarginRight, c.MarginBottom, c.MarginLeft, c.HeaderDistance, c.FooterDistance, c.GutterWidth = 0, 0, 0, 0, 0, 0, 0
+		c.DocGridLinePitch, c.DocGridCharSpace = 0, 0
+		return d.SetPageSettings(&c)
+	},
+		func(s *c12S) bool {
+			*s = c12S{CW: 150, CH: 250, Land: true, Grid: c12Grid{"snapToChars", 0, 0}}
 			return true
 		})
 	add("SetPageSettings(defaults)", func(d *document.Document) error { return d.SetPageSettings(document.DefaultPageSettings()) },
